@@ -156,6 +156,21 @@ class Driver:
             if key in unacked and len(j.script) <= 1:
                 continue
             acts.append(("job", key))
+        if self.policy.get("started_last"):
+            # a realistic worst case for implied outputs: a job's "started" message is delayed until everything
+            # else the job sent has arrived (the other messages keep their order)
+            stepping = set(self.world.can_step())
+            seen = set()
+            for i, m in enumerate(self.net):
+                if m["msg"] == "started":
+                    if m["key"] in stepping or any(o["key"] == m["key"] and o is not m for o in self.net):
+                        continue
+                elif m["key"] in seen:
+                    continue
+                else:
+                    seen.add(m["key"])
+                acts.append(("deliver", i))
+            return acts
         seen = set()
         for i, m in enumerate(self.net):
             # a job's messages arrive in the order it sent them unless the schedule injects reordering
